@@ -30,7 +30,7 @@ ESCRBytes(e) == LET b == W(e[1], 33) IN
 ExtBytes(x) ==
   Pack(B(Present(x.priv)) \o B(Present(x.pack)) \o B(Present(x.seq)) \o B(Present(x.pstd)) \o Ones(3) \o B(Present(x.ext2)))
   \o (IF Present(x.priv) THEN x.priv[1] ELSE <<>>)
-  \o (IF Present(x.pack) THEN << x.pack[1] >> ELSE <<>>)      \* pack_field_length (0: no pack_header bytes follow)
+  \o (IF Present(x.pack) THEN << x.pack[1] >> \o [i \in 1..x.pack[1] |-> 170] ELSE <<>>)      \* pack_field_length, then that many pack_header bytes (skipped by a PES decoder)
   \o (IF Present(x.seq) THEN Pack(<<1>> \o U(x.seq[1], 7) \o <<1>> \o U(x.seq[2], 1) \o U(x.seq[3], 6)) ELSE <<>>)
   \o (IF Present(x.pstd) THEN Pack(<<0, 1>> \o U(x.pstd[1], 1) \o U(x.pstd[2], 13)) ELSE <<>>)
   \o (IF Present(x.ext2) THEN Pack(<<1>> \o U(Len(x.ext2[1]), 7)) \o x.ext2[1] ELSE <<>>)
